@@ -87,7 +87,7 @@ def boxes_for(rng, rshape, rich):
     return B
 
 
-def make_case(rng, kinds, sym=(0, 0, 0), nonuni=False, cplx=False, kvec=None, rshape=None, rich=False, mode="direct"):
+def make_case(rng, kinds, sym=(0, 0, 0), nonuni=False, cplx=False, kvec=None, rshape=None, rich=False, mode="direct", padded=None):
     rshape = rshape or [rng.randint(3, 5), rng.randint(3, 4), rng.randint(3, 5)]
     shape = [2 * v if s != 0 else v for v, s in zip(rshape, sym)]
     widths = None
@@ -108,7 +108,7 @@ def make_case(rng, kinds, sym=(0, 0, 0), nonuni=False, cplx=False, kvec=None, rs
     dets.append({"name": "subset", "tag": "subset", "box": bx["box"], "rbox": bx["rbox"], "exact": True,
                  "components": rng.sample(COMPS, rng.randint(1, 4)), "interval": 2})
     return {"kind": "scene", "scene": scene, "rshape": rshape, "sym": list(sym), "t": rng.choice([0, 2]), "mode": mode,
-            "padded": bool(any(sym)) and mode == "direct",
+            "padded": (bool(any(sym)) and mode == "direct") if padded is None else padded,
             "E": rand_fields(rng, rshape, cplx), "H": rand_fields(rng, rshape, cplx), "Hprev": rand_fields(rng, rshape, cplx), "dets": dets}
 
 
@@ -136,10 +136,22 @@ def plans(ctx):
         dict(kinds=[(P, P), ("bloch", "bloch"), ("bloch", "bloch")], sym=(1, 0, -1), cplx=True, kvec=[0.0, K1, K1]),
         dict(kinds=[("bloch", "pec"), ("pml", "bloch"), (P, P)], cplx=True, kvec=[K1, K1, 0.0], nonuni=True),
         dict(kinds=[("pml", "pml"), ("pml", "pml"), ("pml", "pml")], sym=(-1, 0, 0), rshape=[2, 3, 3]),
+        # one reduced cell on the mirror axis: the code's source slab 2:3 for on-plane components is the max halo; those
+        # entries are never read by the stencil, so the records still obey the oracle (padded arrays not compared)
+        dict(kinds=[("pml", "pml"), ("pml", "pml"), ("pml", "pml")], sym=(-1, 0, 0), rshape=[1, 3, 3], padded=False),
         dict(kinds=[(P, P), ("pec", "pec"), ("pml", "pml")], rshape=[1, 3, 2]),
         dict(kinds=[(P, P), ("pml", "pml"), (P, P)], sym=(-1, 0, 0), nonuni=True, mode="forward"),
         dict(kinds=[("pec", "pmc"), (P, P), ("pml", "pml")], cplx=True),
     ]
+    if not ctx.quick:
+        rng = ctx.rng
+        for _ in range(20):
+            cplx = rng.random() < 0.35
+            pairs = [(P, P), ("pml", "pml"), ("pec", "pmc"), ("pmc", "pml"), (P, "pec"), ("pml", P)] + ([("bloch", "bloch"), ("bloch", "pml")] if cplx else [])
+            kinds = [rng.choice(pairs) for _ in range(3)]
+            sym = tuple(rng.choice([0, 0, -1, 1]) for _ in range(3))
+            kv = [K1 * rng.choice([0.0, 0.5, 1.0, 1.5]) for _ in range(3)] if cplx else None
+            t.append(dict(kinds=kinds, sym=sym, nonuni=rng.random() < 0.5, cplx=cplx, kvec=kv))
     return ctx.pick(q, t)
 
 
